@@ -424,7 +424,23 @@ func runEngineH(p *Prog, o *obls) {
 					return
 				}
 				fa, ok := st.Addr.(*ssa.FieldAddr)
-				if !ok || !p.fieldIs(fa, cs.field) || !sharedBase(p, fn, fa.X) {
+				if !ok || !p.fieldIs(fa, cs.field) {
+					return
+				}
+				if !sharedBase(p, fn, fa.X) {
+					// construction: the initial value is configuration. But a clamp applied here must use the object's
+					// configured bounds like every other clamp — clamping with other bounds (the package defaults) puts
+					// the start value outside the configured range
+					if cl, isCall := p.origin(st.Val).(*ssa.Call); isCall {
+						sc := cl.Call.StaticCallee()
+						clampShaped := sc != nil && strings.HasPrefix(sc.Name(), "clamp") && len(cl.Call.Args) == 3
+						if b := builtinName(&cl.Call); b == "min" || b == "max" {
+							clampShaped = true
+						}
+						if clampShaped && !clampedBy(p, st.Val, cs.min, cs.max) {
+							o.bad("H1", fmt.Sprintf("%s@%s", cs.field, funcKey(fn)), p.instrPos(st), fmt.Sprintf("the initial value of %s is clamped at construction, but not with the configured bounds %s/%s of the same object: a legal configuration outside the other bounds starts outside [min,max]", cs.field, cs.min, cs.max))
+						}
+					}
 					return
 				}
 				n++
